@@ -8,7 +8,7 @@
 #include <filesystem>
 using namespace vf;
 
-static std::string g_dir;
+static std::string g_dir; static std::string* g_digest = nullptr;
 
 #include "vtk_tok.hpp"
 using namespace vtk;
@@ -47,6 +47,7 @@ static std::string run_case(const Case& cs, long* free_slot_cells = nullptr) {
     try { if (cs.writer == 0) mesh_writer::write(cp, fp, cells); else mesh_writer::write_cell_data_file(cp, cells, true); }
     catch (std::exception& e) { err = std::string("writer-threw-on-a-valid-population: ") + e.what(); }
     Parsed P;
+    if (g_digest) { std::ifstream f(cp); std::stringstream ss; ss << f.rdbuf(); *g_digest += ss.str(); }
     if (err.empty()) err = tokenize(cp, P, cs.writer == 0);
     if (err.empty() && cs.writer == 0) { Parsed PF; std::string e2 = tokenize(fp, PF, true); if (!e2.empty()) {
         // the face-data file carries two FIELD blocks (cell data on faces, then point data); only its geometry section counts are checked here
@@ -92,7 +93,7 @@ static void explore(Result& R) {
     for (int t1 = 0; t1 < 5; t1++) for (int t2 = 0; t2 < 5; t2++) for (int h1 : {0, 2}) for (int h2 : {0, 3}) for (int x : {0, 2, 5}) for (int w = 0; w < 2; w++) all.push_back({{{1, t1, h1}, {2, t2, h2}}, x, w});
     for (int m1 = 0; m1 < nm; m1++) for (int m2 = 0; m2 < nm; m2++) for (int m3 : {0, 3, 5}) for (int h : {0, 2}) { if (!th && (m1 + m2) % 2) continue; all.push_back({{{m1, 0, h}, {m2, 1, 0}, {m3, 3, h}}, 4, 0}); all.push_back({{{m1, 2, 0}, {m2, 4, h}, {m3, 0, 3}}, 0, 1}); }
     for (const Case& c : all) { if (R.out_of_time(0.9)) { R.cap("deadline"); break; } cases++;
-        std::string e = run_case(c, &with_free);
+        std::string dg; g_digest = &dg; std::string e = run_case(c, &with_free); g_digest = nullptr; R.mix(dg + e);
         if (!e.empty()) R.violation(clause_of(e) + "|" + (c.writer ? "write_cell_data_file" : "mesh_writer::write") + "|cells=" + std::to_string(c.cells.size()), e + " [" + case_json(c) + "]", "case=" + case_text(c) + "\n");
         if (cases % 400 == 1) R.sample(case_json(c)); }
     std::filesystem::remove_all(g_dir);
